@@ -1125,6 +1125,15 @@ func (p *Program) rulePolyHoles(c *Check) {
 					if v, ok := a.bools[b]; ok && v && strings.HasPrefix(b, "isnil(") {
 						return false
 					}
+					// len(x) and the existence of x's first element must agree
+					if strings.HasPrefix(b, "more(") && strings.HasSuffix(b, ")#0") {
+						ln := "len(" + b[5:len(b)-3] + ")"
+						if v, ok := a.bools[b]; ok && a.has(ln, "0") {
+							if a.R(ln) < a.R("0") || (a.R(ln) == a.R("0")) == v {
+								return false
+							}
+						}
+					}
 				}
 				return true
 			},
